@@ -234,7 +234,10 @@ func Load(repo, verif string, pkgPaths []string) (*Engine, error) {
 		for _, p := range projs {
 			pv = append(pv, fmt.Sprintf("(%s v)", p))
 		}
-		fmt.Fprintf(&auto, "(assert (forall ((v Val)) (! (=> (= (tagof v) tag.%s) (= v (mk.%s %s))) :pattern (%s))))\n", tn, tn, strings.Join(pv, " "), pv[0])
+		// surjectivity (a value of this tag is its constructor applied to its projections) is instantiated only
+		// for terms where the re-boxed value is already mentioned; ground instances are asserted by unbox().
+		// (A pattern on a bare projection made the solvers diverge on queries mentioning several sugar types.)
+		fmt.Fprintf(&auto, "(assert (forall ((v Val)) (! (=> (= (tagof v) tag.%s) (= v (mk.%s %s))) :pattern ((mk.%s %s)))))\n", tn, tn, strings.Join(pv, " "), tn, strings.Join(pv, " "))
 	}
 	pre, err := LoadPrelude(filepath.Join(verif, "specs"), auto.String(), groups)
 	if err != nil {
